@@ -185,7 +185,7 @@ CHECKS = {
                   run("seq_cycle_plain", "conc-plain", mode="cycle", prop="C16", cycles=10, repeat=6)],
         "thorough": [run("seq_cycle", "conc-asan", mode="cycle", prop="C16", cycles=12, repeat=150, timeout=3400),
                      run("seq_cycle_e5", "conc-plain-e5", mode="cycle", prop="C16", cycles=8, repeat=20, timeout=3400),
-                     run("seq_cycle_e40", "conc-plain-e40", mode="cycle", prop="C16", cycles=4, cap_periods=100, repeat=6, timeout=3400)],
+                     run("seq_cycle_e40", "conc-plain-e40", mode="cycle", prop="C16", cycles=4, cap_periods=150, repeat=6, timeout=3400)],
         "parallel": {"quick": 3, "thorough": 4},
     },
     "C17": {
